@@ -1,17 +1,6 @@
-//! Stand-in for chrono (library side only): the real crate, except that `Utc::now()` reads the
-//! simulated wall clock.
+//! Stand-in for chrono: the real crate, unchanged. `Utc::now()` / `Local::now()` read the
+//! simulated wall clock because the C library's `clock_gettime` is interposed inside simulated
+//! tasks (dsim/src/interpose.rs); an earlier version shadowed `Utc` with a unit struct, which
+//! broke every use of `Utc` as a type (`DateTime<Utc>`, `Utc.timestamp_opt(..)`).
 
 pub use chrono_real::*;
-
-/// Shadows the glob-imported `chrono::Utc` for the one call the library makes: `Utc::now()`.
-#[allow(non_camel_case_types)]
-pub struct Utc;
-
-impl Utc {
-    pub fn now() -> chrono_real::DateTime<chrono_real::Utc> {
-        let ns = dsim::wall_peek();
-        let secs = (ns / 1_000_000_000) as i64;
-        let nanos = (ns % 1_000_000_000) as u32;
-        chrono_real::TimeZone::timestamp_opt(&chrono_real::Utc, secs, nanos).single().expect("simulated wall clock out of chrono's range")
-    }
-}
